@@ -73,4 +73,10 @@ it takes later in its own body (a look-up "to save the lock" in front of `Lock()
 from /repo on every run and is empty on this tree. -/
 theorem no_access_before_lock : Nic.Gen.LockFacts.prelocks = [] := by decide
 
+/-- **writers_hold_exclusive_lock**: every method of the arbitration state that writes one of its fields runs under the exclusive lock
+(`Lock()`), its own or — for an unexported helper — that of all its callers; none writes under `RLock()` or without the lock. With
+`discipline_race_free` this is what makes the writes race-free against every reader that takes the lock. Regenerated table, empty on
+this tree. -/
+theorem writers_hold_exclusive_lock : Nic.Gen.LockFacts.weakWriters = [] := by decide
+
 end Nic.Lockset
